@@ -161,13 +161,26 @@ let handle (x : sx) : ostring =
        | Ok f -> "OK " ^ OS.concat " ; " (List.map ocaml_string f)
        | Rtamt -> "RTAMT"
        | Crash -> "CRASH")
-  | L [A "dn"; pk; f; L w] ->
+  | L [A (("dn" | "pastdn") as cmd); pk; f; L w] ->
       let pk = pk_of_sx pk and f = formula_of_sx f in
+      let f = if cmd = "pastdn" then run_pastify true f else f in
       let sig_of = function L smp -> List.map (function L [t; v] -> (z_of_int (int_of_string (atom t)), (Obj.magic (extz_of_string (atom v)) : v)) | _ -> failwith "sample") smp | _ -> failwith "sig" in
       let w = List.map sig_of w in
       let out = run_dn pk f (Obj.magic w) in
       "DN " ^ OS.concat " " (List.map (fun (t, v) -> string_of_int (int_of_z t) ^ ":" ^ string_of_extz (Obj.magic v)) (Obj.magic out))
       ^ " | EXACT " ^ show_bool (dn_exact pk f (Obj.magic w))
+  | L [A (("rhoz" | "pastrhoz") as cmd); pk; f; L w; t0; tend] ->
+      let pk = pk_of_sx pk and f = formula_of_sx f in
+      let f = if cmd = "pastrhoz" then run_pastify true f else f in
+      let sig_of = function L smp -> List.map (function L [t; v] -> (z_of_int (int_of_string (atom t)), (Obj.magic (extz_of_string (atom v)) : v)) | _ -> failwith "sample") smp | _ -> failwith "sig" in
+      let w = List.map sig_of w in
+      "RHOZ " ^ show_vals (run_rhoz pk f (Obj.magic w) (z_of_int (int_of_string (atom t0))) (z_of_int (int_of_string (atom tend))))
+      ^ " | EXACT " ^ show_bool (dn_exact pk f (Obj.magic w))
+  | L [A "isect"; op; L a; L b] ->
+      let smp = function L [t; v] -> (z_of_int (int_of_string (atom t)), (Obj.magic (extz_of_string (atom v)) : v)) | _ -> failwith "sample" in
+      (match run_isect (nat_of_sx op) (Obj.magic (List.map smp a)) (Obj.magic (List.map smp b)) with
+       | None -> "ISECT BAD"
+       | Some out -> "ISECT " ^ OS.concat " " (List.map (fun (t, v) -> string_of_int (int_of_z t) ^ ":" ^ string_of_extz (Obj.magic v)) (Obj.magic out)))
   | L [A "info"; f] ->
       let f = formula_of_sx f in
       Printf.sprintf "HOR %d | BF %s | PAST %s | ISBOOL %s" (int_of_nat (run_hor f)) (show_bool (run_bounded_future f))
